@@ -269,15 +269,20 @@ def run(ctx):
     ctx.mc(SPEC_DIR, "HashMapMC", "MC_abs_thorough.cfg" if thorough else "MC_abs.cfg", timeout=3000, xmx="16g",
            required_actions=["HashMapMC!MCPut", "HashMapMC!MCRemove", "HashMapMC!MCSwap", "HashMapMC!MCMove",
                              "HashMapMC!MCIterDelete", "HashMapMC!MCForEach", "HashMapMC!MCCleanUp"])
-    base = ["RobinHoodMC!MCPut", "RobinHoodMC!MCCreate", "RobinHoodMC!MCRemove", "RobinHoodMC!MCRemoveWrap",
-            "RobinHoodMC!MCIterNext", "RobinHoodMC!MCIterDelete", "RobinHoodMC!MCIterDeleteShrink",
-            "RobinHoodMC!MCIterDeleteSlot0", "RobinHoodMC!MCForEach"]
-    grow = base + ["RobinHoodMC!MCPutGrow"]
-    cfgs = [("MC.cfg", base), ("MC_grow.cfg", grow), ("MC_cluster.cfg", base), ("MC_obj.cfg", grow)]
+    # vacuity guard: every named action of the implementation-shaped model (including the split-off internal
+    # branches: growth, backward shift across the end of the array, iterator limit--, step back from slot 0) is
+    # taken in a small complete configuration run with -coverage; the large configurations run without it
+    # (coverage collection costs TLC more than twice the time).
+    ctx.mc(SPEC_DIR, "RobinHoodMC", "MC_cov.cfg", timeout=3000, xmx="8g", required_actions=[
+        "RobinHoodMC!MCReInit", "RobinHoodMC!MCPut", "RobinHoodMC!MCPutGrow", "RobinHoodMC!MCCreate", "RobinHoodMC!MCFind",
+        "RobinHoodMC!MCRemove", "RobinHoodMC!MCRemoveWrap", "RobinHoodMC!MCRemoveElement", "RobinHoodMC!MCClear",
+        "RobinHoodMC!MCCleanUp", "RobinHoodMC!MCIterBegin", "RobinHoodMC!MCIterNext", "RobinHoodMC!MCIterDelete",
+        "RobinHoodMC!MCIterDeleteShrink", "RobinHoodMC!MCIterDeleteSlot0", "RobinHoodMC!MCForEach"])
+    cfgs = ["MC.cfg", "MC_grow.cfg", "MC_cluster.cfg", "MC_obj.cfg"]
     if thorough:
-        cfgs += [("MC_grow_thorough.cfg", grow), ("MC_cluster_thorough.cfg", base)]
-    for cfg, req in cfgs:
-        ctx.mc(SPEC_DIR, "RobinHoodMC", cfg, timeout=6000, xmx="16g", required_actions=req)
+        cfgs += ["MC_grow_thorough.cfg", "MC_cluster_thorough.cfg"]
+    for cfg in cfgs:
+        ctx.mc(SPEC_DIR, "RobinHoodMC", cfg, timeout=6000, xmx="16g", coverage=False)
     # 2. model -> code ------------------------------------------------------------------------------------
     rng = random.Random(ctx.seed)
     scripts, _ = tlc.gen_scripts(SPEC_DIR, "RobinHoodMC", "Gen.cfg", ctx.outdir, num=120 if not thorough else 1200, depth=40,
@@ -302,10 +307,15 @@ def run(ctx):
         execs.append(hasheq_exec(rng, 60))
     ctx.extra["real_hash_table_scripts"] = nreal * len(REAL_MODES)
     ctx.extra["hasheq_pairs"] = nheq * 59
+    calls = {}
     for ex in execs:
         ctx.evaluations += 1
         if nontrivial(ex):
             ctx.distinct.add(hash("\n".join(ex)))
+        for ln in ex:
+            w = ln.split(" ", 1)[0]
+            calls[w] = calls.get(w, 0) + 1
+    ctx.extra["script_calls"] = calls
     ctx.add_sample({"script": execs[0][:16]})
     ctx.add_sample({"script": execs[len(scripts) + 1][:16]})
     ctx.add_sample({"script": execs[-1][:4]})
